@@ -21,8 +21,8 @@ var reserveExtern = map[string]int64{
 	"chainfee.FeePerKwFloor":       253,
 }
 
-// usesSelector reports whether the function body mentions pkg.name.
-func usesSelector(fd *ast.FuncDecl, sel string) bool {
+// reserveUsesSelector reports whether the function body mentions pkg.name.
+func reserveUsesSelector(fd *ast.FuncDecl, sel string) bool {
 	found := false
 	ast.Inspect(fd, func(n ast.Node) bool {
 		if se, ok := n.(*ast.SelectorExpr); ok && exprString(se) == sel {
@@ -36,7 +36,7 @@ func usesSelector(fd *ast.FuncDecl, sel string) bool {
 // switchTrueCases returns, for a method of the shape
 // `switch x { case A, B: return true; default: return false }`, the case
 // expressions of the `return true` arm. ok=false if the shape differs.
-func switchCasesReturning(fd *ast.FuncDecl, want string) ([]ast.Expr, bool) {
+func reserveSwitchCasesReturning(fd *ast.FuncDecl, want string) ([]ast.Expr, bool) {
 	if fd == nil || fd.Body == nil {
 		return nil, false
 	}
@@ -90,7 +90,7 @@ func genReserveFacts() {
 	l.p("def feeRateTotalParts : Nat := %s", intConst(order, "order", "FeeRateTotalParts"))
 
 	// State.Archived: the set of states for which it returns true.
-	cases, ok := switchCasesReturning(findFunc(orderFiles, "State.Archived"), "true")
+	cases, ok := reserveSwitchCasesReturning(findFunc(orderFiles, "State.Archived"), "true")
 	if !ok || len(cases) == 0 {
 		fail("order.State.Archived no longer has the shape switch{case …: return true; default: return false}")
 	}
@@ -126,7 +126,7 @@ func genReserveFacts() {
 	} else {
 		for _, s := range []string{"input.P2WSHOutputSize", "input.InputSize", "blockchain.WitnessScaleFactor",
 			"poolscript.TaprootMultiSigWitnessSize", "poolscript.MultiSigWitnessSize"} {
-			if !usesSelector(etf, s) {
+			if !reserveUsesSelector(etf, s) {
 				fail("order.EstimateTraderFee no longer uses %s", s)
 			}
 		}
@@ -194,6 +194,22 @@ func genReserveFacts() {
 			}
 		}
 	}
+	// account.ValidateVersion: the known account versions (the case list returning nil).
+	var known []string
+	if kc, ok := reserveSwitchCasesReturning(findFunc(pkgFiles("account"), "ValidateVersion"), "nil"); !ok || len(kc) == 0 {
+		fail("account.ValidateVersion no longer has the shape switch{case …: return nil; default: return <err>}")
+	} else {
+		for _, c := range kc {
+			id, isID := c.(*ast.Ident)
+			if !isID {
+				fail("account.ValidateVersion: case %s is not an identifier", exprString(c))
+				continue
+			}
+			known = append(known, intConst(acct, "account", id.Name))
+		}
+	}
+	l.p("/-- the account versions `account.ValidateVersion` accepts -/")
+	l.p("def knownAccountVersions : List Nat := [%s]", strings.Join(known, ", "))
 	l.p("/-- account versions for which EstimateTraderFee adds the taproot witness size (all others: MultiSigWitnessSize) -/")
 	l.p("def taprootVersions : List Nat := [%s]", strings.Join(tap, ", "))
 
@@ -216,7 +232,7 @@ func genReserveFacts() {
 	l.p("def execFeeRateDivisor : Nat := %s", div)
 
 	// manager.validateOrder compares MaxBatchFeeRate with chainfee.FeePerKwFloor.
-	if vo := findFunc(orderFiles, "manager.validateOrder"); vo == nil || !usesSelector(vo, "chainfee.FeePerKwFloor") {
+	if vo := findFunc(orderFiles, "manager.validateOrder"); vo == nil || !reserveUsesSelector(vo, "chainfee.FeePerKwFloor") {
 		fail("order.manager.validateOrder no longer references chainfee.FeePerKwFloor")
 	}
 	l.p("end Pool.Gen.Reserve")
